@@ -118,7 +118,7 @@ def encode_trace(tr):
 _STATS_RE = re.compile(r"(\d+) states generated, (\d+) distinct states found")
 
 
-def run_batches(traces, workers=16, timeout=1500, keep=None, heap="8g", max_support=4000):
+def run_batches(traces, workers=16, timeout=1500, keep=None, heap="8g", max_support=4000, chunk=60):
     """traces: python-form traces.  Returns (verdicts by id, stats, errors by id)"""
     by_D = {}
     errors = {}
@@ -133,8 +133,8 @@ def run_batches(traces, workers=16, timeout=1500, keep=None, heap="8g", max_supp
     stats = {"states": 0, "distinct": 0, "tlc_runs": 0, "tlc_wall_s": 0.0, "D": sorted(by_D)}
     chunks = []
     for D, encs_all in sorted(by_D.items()):
-        for i in range(0, len(encs_all), 60):                  # a TLC run that runs out of time loses 60 traces at most
-            chunks.append((D, encs_all[i:i + 60]))
+        for i in range(0, len(encs_all), chunk):               # a TLC run that runs out of time loses one chunk at most
+            chunks.append((D, encs_all[i:i + chunk]))
     for D, encs in chunks:
         work = tempfile.mkdtemp(prefix="verif-tlc-")
         try:
